@@ -9,6 +9,7 @@ CONSTANTS
   Aging = TRUE
   TwoStep = TRUE
   RecAging = TRUE
+  MaxFaults = 1
 CONSTRAINTS Mark NotYetAccepted
 POSTCONDITION Accepted
 CHECK_DEADLOCK FALSE
